@@ -10,11 +10,11 @@ NOTES = {
          "doubles as reals; accumulation rule trusted; tree walk recursion and multipole bound not decided; pair-filter contract is structural (write summaries)"),
  "C03": ("Stumpff/Stiefel functions (series, quadrupling, reduction), Newton fixed point => universal Kepler equation, f-g update (Wronskian, energy, angular momentum), hyperbolic bisection bracket, mass parameter per coordinate system and caller, coordinate cache follows N, proved on the real code; plus a labelled bounded native sweep of one WHFast step against the closed-form solution",
          "doubles as reals; exit-with-root of the iterations assumed; termination and NaN/overflow in floating point not decided by proof (the bounded sweep reports one known finding: hyperbolic long steps); WHFast512 not compiled"),
- "C04": ("merge conserves mass/momentum/COM; diagnostics equal their definitions; COM steps; pair sets and Sum m a = 0 of the force routines incl. MERCURIUS/TRACE parts (shared with C02), Kepler mass parameters (shared with C03), COM drift of unsynchronised WHFast/SABA (shared with C09); TRACE restores the centre of mass on a redone step",
+ "C04": ("merge conserves mass/momentum/COM; diagnostics equal their definitions; COM steps; pair sets and Sum m a = 0 of the force routines incl. MERCURIUS/TRACE parts (shared with C02), Kepler mass parameters (shared with C03), COM drift of unsynchronised WHFast/SABA (shared with C09); TRACE restores the centre of mass on a redone step; every integrator's part1 sets its own pair filter (shared with C02)",
          "doubles as reals; size of the energy error not decided"),
  "C05": ("descriptor table (as the compiler evaluates it) well formed against the real struct layout and complete: every member persisted, reconstructed or explicitly classified; writer emits exactly the table, reader inverts it per descriptor; loader rebuilds the tree iff in use; delta snapshots contain every changed field (shared with C06)",
          "classification list is an assumption (one entry was found false and withdrawn); bit-identical continuation argued from the persistence frame only"),
- "C06": ("reb_binary_diff emits a well-formed delta stream and emits a field iff it differs (new/vanished fields, var_config member-wise), overlay of a delta on blob 0 by the loader reproduces the live values, heartbeat cadence bookkeeping per call",
+ "C06": ("reb_binary_diff emits a well-formed delta stream and emits a field iff it differs (new/vanished fields, var_config member-wise), overlay of a delta on blob 0 by the loader reproduces the live values, heartbeat cadence bookkeeping per call; the final snapshot of integrate() is the returned state; save_to_file(delete_file=True) always re-arms the schedule (Python, exhaustive)",
          "byte content uninterpreted; induction over a whole run and >2 GiB offsets not decided"),
  "C07": ("archive open under an arbitrary truncation point (symbolic file length, short reads): heap ownership on every path, a blob is accepted only with consistent END+trailer, index within the file; append protocol of reb_simulation_save_to_file (trailer rewritten only after the delta is complete); native truncation sweep as labelled bounded stand-in",
          "FILE model: prefix truncation only; identity of accepted snapshots with the uninterrupted run is C06"),
@@ -24,7 +24,7 @@ NOTES = {
          "merge laws of exact flows assumed; rounding differences not decided; two known findings (corrector2 inverse, keep_unsynchronized with exact finish)"),
  "C10": ("JANUS step(-dt) o step(dt) = id on the integer state (floating point uninterpreted + IEEE oddness); integer state rebuilt exactly when requested or when N changed; symmetric schemes palindromic in synchronized and unsynchronized mode; force evaluation a pure function of positions and of the integrator's own pair filter; Kepler solver bracket for both signs of dt; SEI cache of the current dt",
          "IEEE oddness/commutativity axioms; int64 overflow not modelled; size of the rounding error of non-JANUS round trips not decided"),
- "C11": ("orbital element <-> Cartesian maps: rejections, definedness, defining relations, anomaly conversions; twin front ends: same accept/reject tables, same prograde/retrograde angle conversions (inverse of the reader's convention), same dimensional conversions (a from P, M from T), arguments reach the parameter of the same name, Python aliases folded before use",
+ "C11": ("orbital element <-> Cartesian maps: rejections, definedness, defining relations, anomaly conversions; twin front ends: same accept/reject tables, same prograde/retrograde angle conversions (inverse of the reader's convention), same dimensional conversions (a from P, M from T), arguments reach the parameter of the same name, Python aliases folded before use, masses final before a conversion uses them",
          "doubles as reals; trig axioms per occurrence; Newton convergence and the omega,f round trip not decided; parser contracts are extracted syntactically and compared exactly"),
  "C12": ("all coordinate transformations: forward definitions, slot 0 = (M, COM), inverses recover inputs, variants agree, memory safety; symbolic N, N_active", "doubles as reals; non-zero prefix masses as stated preconditions"),
  "C13": ("collision search predicates (direct, line both signs of dt, tree leaf test), resolve algebra (merge, hard sphere), index fix-up after removals for sorted / unsorted / tree / hybrid-integrator removal, tree updated before it is walked",
@@ -35,13 +35,13 @@ NOTES = {
          "doubles as reals; global tree invariant for arbitrary depth not decided"),
  "C16": ("variational force loops equal the symbolic derivative of the softened pair-force specification (1st and 2nd order, accumulation rule); all 65 derivative constructors equal the sympy derivative of the real forward map; add_variation / rescale (incl. the IAS15 predictor state) / MEGNO bookkeeping; WHFast words refresh variational positions before every kick; Stumpff cs recurrences of the tangent map; frame shifts apply their derivative; Python dispatch",
          "doubles as reals; Kepler-Pal solver through its summary contract; tangent map of the Kepler solver beyond its Stumpff functions, MEGNO->2 not decided"),
- "C17": ("reb_particle_diff differs iff a non-pointer member differs; compare-mode flag semantics of reb_binary_diff for arbitrary field sequences incl. both passes and full element loops; no persisted array embedding addresses is compared byte-wise; copy reads the source only through the serialiser, which writes every descriptor in every state (shared with C05)",
+ "C17": ("reb_particle_diff differs iff a non-pointer member differs; compare-mode flag semantics of reb_binary_diff for arbitrary field sequences incl. both passes and full element loops; no persisted array embedding addresses is compared byte-wise; copy reads the source only through the serialiser, which writes every descriptor in every state (shared with C05); delta stream of incremental snapshots well formed (shared with C06)",
          "byte content uninterpreted; evolution of a copy argued from C05 only"),
- "C18": ("exhaustive per-member comparison of clang record layouts with the ctypes classes, option tables vs C enums, every named function option references the C function of that name, setter/getter round trips, Variation.lrescale addresses its own configuration",
+ "C18": ("exhaustive per-member comparison of clang record layouts with the ctypes classes, option tables vs C enums, every named function option references the C function of that name, setter/getter round trips, Variation.lrescale addresses its own configuration, Variation.particles is a view of the current block, no definition permutes the parameters of its prototype",
          "x86-64 layout; alias table listed as assumptions"),
  "C19": ("whole-library frames: no written global or function-static state except reb_sigint, no non-reentrant libc, lockset around step and served serialisation, serialisation write frame, every call made while serving writes only the serialiser's frame, pausing a run does not synchronise it",
          "data-race-freedom meta-theorem trusted; scheduling itself not modelled"),
- "C20": ("quaternion algebra and constructors incl. degenerate ones, unit tables and conversions, frame shifts incl. variational corrections, linear combinations; element conversions of both front ends carry G in the right place",
+ "C20": ("quaternion algebra and constructors incl. degenerate ones (to_new_axes with antiparallel x), unit tables and conversions, frame shifts incl. variational corrections, linear combinations; element conversions of both front ends carry G in the right place",
          "doubles as reals; reference constants table is an assumption; obtuse from_to branch not decided"),
 }
 NA = {
